@@ -467,8 +467,8 @@ theorem C13_redial_effect_order :
     keys (cbFlow.filter fun e => e.guards.contains cbFail) = ((attemptOps .hookFail).drop (attemptOps .up).length).map opKey ∧
     dedup (keys (cbFlow.filter fun e => !e.guards.contains cbFail)) = (attemptOps .up).map opKey ∧
     attemptOps .down = [] ∧
-    ((cbFlow.filter fun e => e.is "call" "socket.SetID").map fun e => (e.x, e.guards.drop 2)) =
-      [("sess.LocalAddr().String()", [idSame]), ("was(sess.ID())", ["!(" ++ idSame ++ ")"])] ∧
+    SrcFlow.sameSet ((cbFlow.filter fun e => e.is "call" "socket.SetID").map fun e => (e.x, e.guards.drop 2))
+      [("sess.LocalAddr().String()", [idSame]), ("was(sess.ID())", ["!(" ++ idSame ++ ")"])] = true ∧
     (runOps ⟨true, .addr 0, 0⟩ (State.init 1 false) (attemptOps .up)).id = .addr 1 ∧
     (runOps ⟨false, .user, 0⟩ (State.init 1 false) (attemptOps .up)).id = .user ∧
     ((cbFlow.filter fun e => e.kind == "return").map fun e => (e.x, e.guards.contains cbFail)) =
